@@ -157,6 +157,57 @@ theorem canonical_eq_sdk_partial (c : Crypto) (r : Req) (S : List Bytes) (presig
   unfold canonicalRequest
   rw [serverCanon_eq_sdkCanon c Fix.asIs r S presigned h (Or.inr hc) (Or.inr ho)]
 
+/-- **sdk_signed_accepted** (ideal server). A request of the S3 client's shape that carries the
+credential of a configured key for the configured region, a timestamp inside the window, the
+SDK's list of signed headers (containing `host` and every `x-amz-*` / `Content-MD5` header it
+sent) and the signature the SDK computes with that key's secret is authenticated as that key —
+whatever its path, query string, headers and payload mode. -/
+theorem sdk_signed_accepted (c : Crypto) (cfg : Config) (r : Req) (p : SigParams)
+    (ak secret date : Bytes) (t : Int)
+    (hp : parseSigParams r = .ok p) (halg : p.alg = algV4)
+    (hcred : p.credential = join [47] [ak, date, cfg.region, b! "s3", b! "aws4_request"])
+    (hak : (47 : UInt8) ∉ ak) (hdt : (47 : UInt8) ∉ date) (hrg : (47 : UInt8) ∉ cfg.region)
+    (hkey : cfg.creds.find? (fun k => k.accessKey == ak) = some ⟨ak, secret⟩)
+    (hts : parseTimestamp p.timestamp = some t) (hdate : date = p.timestamp.take 8)
+    (hwin : t - 900 ≤ cfg.now ∧ cfg.now ≤ t + (p.expires : Int))
+    (hhost : (parseSignedHeaders p.signedHeaders).contains hostKey = true)
+    (hsens : ∀ h ∈ r.headers, mustBeSigned (lower h.1) = true →
+      (parseSignedHeaders p.signedHeaders).contains (lower h.1) = true)
+    (hshape : SdkShaped c r p.presigned)
+    (hstream : ¬ (headerGet r contentSHA256Header = streamingECDSA ∨ headerGet r contentSHA256Header = streamingECDSATrailer))
+    (hsig : p.signature = sdkSignature c secret date cfg.region p.timestamp r (parseSignedHeaders p.signedHeaders) p.presigned) :
+    checkAuth c Fix.ideal cfg r =
+      .ok { accessKey := ak, params := p,
+            scope := join [47] [date, cfg.region, b! "s3", b! "aws4_request"],
+            signed := parseSignedHeaders p.signedHeaders } :=
+  accepted_of_canonical_eq c Fix.ideal cfg r p ak secret date t hp halg hcred hak hdt hrg hkey hts hdate hwin hhost
+    hsens (canonical_eq_sdk c r _ p.presigned hshape) hstream hsig
+
+/-- **sdk_signed_accepted_partial** (the code as it is): the same, when no signed header value
+contains a run of spaces and the two query orders agree. -/
+theorem sdk_signed_accepted_partial (c : Crypto) (cfg : Config) (r : Req) (p : SigParams)
+    (ak secret date : Bytes) (t : Int)
+    (hp : parseSigParams r = .ok p) (halg : p.alg = algV4)
+    (hcred : p.credential = join [47] [ak, date, cfg.region, b! "s3", b! "aws4_request"])
+    (hak : (47 : UInt8) ∉ ak) (hdt : (47 : UInt8) ∉ date) (hrg : (47 : UInt8) ∉ cfg.region)
+    (hkey : cfg.creds.find? (fun k => k.accessKey == ak) = some ⟨ak, secret⟩)
+    (hts : parseTimestamp p.timestamp = some t) (hdate : date = p.timestamp.take 8)
+    (hwin : t - 900 ≤ cfg.now ∧ cfg.now ≤ t + (p.expires : Int))
+    (hhost : (parseSignedHeaders p.signedHeaders).contains hostKey = true)
+    (hsens : ∀ h ∈ r.headers, mustBeSigned (lower h.1) = true →
+      (parseSignedHeaders p.signedHeaders).contains (lower h.1) = true)
+    (hshape : SdkShaped c r p.presigned)
+    (hruns : ∀ h ∈ r.headers, noSpaceRuns h.2 = true)
+    (horder : encOrderAgrees (signedQuery r.query) = true)
+    (hstream : ¬ (headerGet r contentSHA256Header = streamingECDSA ∨ headerGet r contentSHA256Header = streamingECDSATrailer))
+    (hsig : p.signature = sdkSignature c secret date cfg.region p.timestamp r (parseSignedHeaders p.signedHeaders) p.presigned) :
+    checkAuth c Fix.asIs cfg r =
+      .ok { accessKey := ak, params := p,
+            scope := join [47] [date, cfg.region, b! "s3", b! "aws4_request"],
+            signed := parseSignedHeaders p.signedHeaders } :=
+  accepted_of_canonical_eq c Fix.asIs cfg r p ak secret date t hp halg hcred hak hdt hrg hkey hts hdate hwin hhost
+    hsens (canonical_eq_sdk_partial c r _ p.presigned hshape hruns horder) hstream hsig
+
 /-- The order condition is met whenever no key or value needs escaping … -/
 theorem encOrderAgrees_of_unreserved (q : List (Bytes × Bytes))
     (h : ∀ p ∈ q, p.1.all isUnreserved = true ∧ p.2.all isUnreserved = true) : encOrderAgrees q = true := by
@@ -239,5 +290,31 @@ def richReq : Req :=
 example : SdkShaped toy richReq false ∧ (∀ h ∈ richReq.headers, noSpaceRuns h.2 = true) ∧
     encOrderAgrees (signedQuery richReq.query) = true := by
   refine ⟨⟨⟨b! "/b/a b+c%ä//x", rfl⟩, by decide, by decide, by decide, by decide⟩, by decide, by decide⟩
+
+-- a concrete SDK-signed request (toy primitives): accepted by the code as it is
+
+def toyCfg : Config := { creds := [⟨b! "AK", b! "secret"⟩], region := b! "eu", now := 1718454645 }
+
+def sdkToyBase : Req :=
+  { method := b! "PUT", path := sdkEscapePath (b! "/b/a b+c"), query := [(b! "prefix", b! "p q"), (b! "tag", b! "1")],
+    host := b! "s3.verif.test",
+    headers := [(b! "X-Amz-Content-Sha256", [b! "UNSIGNED-PAYLOAD"]), (b! "X-Amz-Date", [b! "20240615T123045Z"]),
+                (b! "X-Amz-Meta-M", [b! "one two", b! "three"])],
+    body := b! "data" }
+
+def sdkToyNames : List Bytes := [b! "host", b! "x-amz-content-sha256", b! "x-amz-date", b! "x-amz-meta-m"]
+
+/-- the same request with the Authorization header the SDK model produces -/
+def sdkToyReq : Req :=
+  { sdkToyBase with headers :=
+      (b! "Authorization", [b! "AWS4-HMAC-SHA256 Credential=AK/20240615/eu/s3/aws4_request, SignedHeaders=host;x-amz-content-sha256;x-amz-date;x-amz-meta-m, Signature=" ++
+        sdkSignature toy (b! "secret") (b! "20240615") (b! "eu") (b! "20240615T123045Z") sdkToyBase sdkToyNames false]) ::
+      sdkToyBase.headers }
+
+set_option maxRecDepth 1000000 in
+/-- Non-vacuity of `sdk_signed_accepted_partial`: the request signed by the SDK model is accepted
+by the model of the code as it is. -/
+example : (checkAuth toy Fix.asIs toyCfg sdkToyReq).toOption.map (·.accessKey) = some (b! "AK") := by
+  decide
 
 end Pithos.C29
